@@ -124,6 +124,20 @@ ASSUMPTIONS = {
 }
 
 
+def _compact(o, depth=0):
+    """A recorded history as written to the replay file, long lists cut."""
+    if isinstance(o, dict):
+        return {k: _compact(v, depth + 1) for k, v in o.items()
+                if k != 'shrinkable'}
+    if isinstance(o, list):
+        cut = 60 if depth <= 1 else 12
+        out = [_compact(v, depth + 1) for v in o[:cut]]
+        if len(o) > cut:
+            out.append(f'... {len(o) - cut} more')
+        return out
+    return o
+
+
 def build(prop, engine, tier, seed, results, wall, truncated, nviol,
           known_hit, workers):
     done = [r for r in results if not r.get('error')]
@@ -140,9 +154,7 @@ def build(prop, engine, tier, seed, results, wall, truncated, nviol,
     for r in results[:3]:
         if r.get('history'):
             samples.append({'run': r['run'], 'run_seed': r['seed'],
-                            'ops': r['history'].get('ops', [])[:80],
-                            'schedule': r['history'].get('schedule'),
-                            'swarm': r['history'].get('swarm')})
+                            'history': _compact(r['history'])})
     steps = agg.get('steps', 0)
     cov = {
         'evaluations': len(done),
